@@ -97,6 +97,8 @@ def pair_specs():
     return pick[:24]
 
 
+MAX_CRASHES_PER_BATCH = 12
+
 ASAN_RE = re.compile(r"ERROR: AddressSanitizer: ([\w-]+)")
 UBSAN_RE = re.compile(r"runtime error: (.*)")
 LOC_RE = re.compile(r"(anneal_\w+\.c|_canneal\.c|random\.c|pcg_\w+\.c):(\d+)")
@@ -166,6 +168,9 @@ def drive(variant, mode, calls, env_extra=None, label=""):
                     or l.startswith(("READ", "WRITE")) or "is located" in l]
             crashes.append((last_call, kind, loc, tape, "\n".join(keep[:14])))
             start = last_call + 1
+            if len(crashes) >= MAX_CRASHES_PER_BATCH:
+                # every crash costs a process restart; a kernel that crashes this often has been reported often enough
+                break
     finally:
         shutil.rmtree(tmp, ignore_errors=True)
     return results, crashes
